@@ -215,6 +215,21 @@ def runInitInputs (add : Bool) (j : Json) : Except String Json := do
   return obj [("modified", toJson md),
     ("graphs", Json.arr (s.map (fun g => natsJ g.inputs)).toArray)]
 
+def getOptNats (j : Json) (k : String) : Except String (List (Option Nat)) := do
+  (← getArr j k).mapM (fun x => match x with
+    | Json.null => pure none
+    | v => do return some (← fromJson? v))
+
+def runDce (j : Json) : Except String Json := do
+  let nodes ← (← getArr j "nodes").mapM (fun n => do
+    return (⟨← getNat n "id", ← getOptNats n "inputs", ← getNats n "outputs"⟩ : Dce.Node))
+  let s : Dce.St := ⟨nodes, ← getNats j "outs", ← getNats j "ins", ← getNats j "inits"⟩
+  let (t, md) := Dce.removeUnusedNodes s
+  return obj [("modified", toJson md),
+    ("nodes", Json.arr (t.nodes.map (fun n => obj [("id", toJson n.id),
+        ("inputs", Json.arr (n.inputs.map optNatJ).toArray), ("outputs", natsJ n.outputs)])).toArray),
+    ("inits", natsJ t.inits), ("size", toJson (Dce.size t))]
+
 def handle : Handler := fun m j =>
   match m with
   | "passinfra.run" => some (runScripted j)
@@ -224,6 +239,7 @@ def handle : Handler := fun m j =>
   | "passinfra.sortflag" => some (runSortFlag j)
   | "passinfra.rminit" => some (runInitInputs false j)
   | "passinfra.addinit" => some (runInitInputs true j)
+  | "passinfra.dce" => some (runDce j)
   | _ => none
 
 end IrVerif.Drive.PassInfra
